@@ -11,6 +11,8 @@ CHECK = {
         "stage H (histories): what the trace says about a body must not depend on what the process traced before. Pairs (first, second) are traced back to back on one goroutine with GOMAXPROCS(1) and the collector off (debug.SetGCPercent(-1)) for the pair, so hand-off through process-wide state (package variables, sync.Pool) is deterministic; histories longer than two bodies and concurrent bodies are not enumerated (pairs of one shard do follow each other in one process, and a finding that needs more than the pair is reported with the shortest reproducing suffix of the shard's history)",
         "stage M (late header edits): the owner of a live header map may edit it once the headers went out (http.ResponseWriter.Header() after WriteHeader or the first Write: net/http ignores such edits other than trailers; resp.Header once RoundTrip has returned; the handler's own *http.Request header while it reads the body); the wire is identical, so the trace must be too. Edits: delete / set (identity, gzip, zstd, an unknown name) / add a second value, for Connect-Content-Encoding, Grpc-Encoding, Content-Encoding, and delete / set Content-Type (json, the Connect, gRPC-Web and gRPC types), one edit per case, before the k-th Read/Write call of the body with the body delivered in one call, in two calls cut at every offset, or byte by byte (edit before every call and after the last). The client request side is not enumerated: a caller must not touch a request before the response body is closed, and then the trace is complete",
         "stage P (HTTP/2 conn tracer): one exchange on stream 1 of a scripted connection (hand-built frames, fake net.Conn, fresh TracingHTTP2Conn per case, client bytes then server bytes), the same body in both directions; padding octets are zero (RFC 9113 section 6.1); pad lengths 0, 1, 7, 255; HEADERS priority = depends on stream 0, weight 16; concurrent streams, interleaved directions, flow control and malformed frames are C15's subject, not enumerated here",
+        "stage L (large, highly compressible end-stream content): content is all zero bytes, one repeated letter, a repeated 3-byte pattern (thorough also a 255-byte pattern), or such a run of letters inside a Connect end-stream JSON / a gRPC-Web trailer block; sizes 2^k-1, 2^k, 2^k+1 for k = 0..20 (quick: only 2^k between 64 KiB and 1 MiB); encodings absent / identity / gzip / zstd / br / deflate / snappy; compressed bit set and unset (quick: payloads above 64 KiB on the wire, i.e. uncompressed or identity, only in the thorough tier); delivered in calls of 64 bytes and of 1, 7, 64, 13, 2, 31 bytes in turn (quick above 64 KiB: one of the two); quick: Connect on the client response side and gRPC-Web on the server response side, thorough both on both, with and without a leading message",
+        "stage P, part P-h2-hpack: two (thorough three) exchanges one after the other on one connection, all header blocks of a direction from one hpack.Encoder (later blocks refer to the dynamic table); per direction the encoder changes its dynamic table size (none / 4096 / 65536 / 1 MiB / 0 / 0 then 65536) before the first header block or before the last exchange's header block (thorough: before any headers or trailers block), preceded by the receiving side's SETTINGS frame with SETTINGS_HEADER_TABLE_SIZE and its acknowledgement, so the wire is legal (RFC 7541 section 4.2, RFC 9113 section 6.5.2); the server's SETTINGS frame goes first, as x/net/http2 sends it",
         "stage H first bodies: complete compressed end-stream envelopes (Connect 0x03, gRPC-Web 0x81; texts of 29 / 40 bytes) in gzip, zstd, br, deflate, snappy whose payload is cut at every byte position (envelope length adjusted), has one byte altered at every position (+1, ^0xff; thorough also ^0x01, ^0x80), has a trailing byte or is in another encoding than negotiated (damaged zstd payloads that declare a decoded or window size above 16 MiB are left out: the zstd library allocates the declared size up front, up to 2 GiB for a 42-byte payload, which concerns the decompressor, not tracing); every truncation of a valid two-message stream under every ending on all four sides; valid bodies. Second bodies: valid two-message streams, encoding absent / identity / each supported one, compressed bit set and unset, Connect and gRPC-Web, client response and server response",
     ],
     "manifest": {
@@ -24,7 +26,7 @@ CHECK = {
                 "reference parse (data events with exact flags / declared length / consecutive indices, end-stream content decompressed iff bit 0, "
                 "single final body-end event with the final error, partial event with the byte count seen), with the events of the one-call "
                 "composition (chunking independence), and everything the application and its peer observe is compared byte for byte with a run without tracing. "
-                "Before that enumeration four cheap stages run in the same unit. "
+                "Before that enumeration five cheap stages run in the same unit. "
                 "Stage M (late header edits, ~87k cases quick / ~174k thorough): a two-message body (leading message + end-stream message, compressed bit set / unset; Connect, gRPC-Web, gRPC; encoding absent / identity / gzip / zstd, thorough also br / deflate / snappy) "
                 "on the client response, server response (explicit and implicit WriteHeader) and server request side, where the owner of the live header map (ResponseWriter.Header(), resp.Header, the handler's request header) deletes / sets / adds "
                 "Connect-Content-Encoding, Grpc-Encoding, Content-Encoding or Content-Type after the headers went out: before any body byte, at every byte offset of the body (two calls cut there, and byte by byte), and after the last byte; "
@@ -33,7 +35,14 @@ CHECK = {
                 "every truncation of two end-stream bodies) carried through TracingHTTP2Conn on a server-side and a client-side conn in hand-built frames: two DATA frames cut at every offset (frames without data included) x pairs of "
                 "{unpadded, PADDED with pad length 0, 1, 7, 255} (quick: every padding in either position next to an unpadded frame or to the same padding; thorough: every pair, and three frames at every pair of offsets), one DATA frame per byte, END_STREAM on the last DATA frame / on an empty (also padded) DATA frame / on a trailers HEADERS block, "
                 "HEADERS frames plain / PADDED / PRIORITY / both / split over CONTINUATION frames, conn Read/Write calls whole or in 1 / 3 / 13-byte pieces; oracle: request and response body events identical to those of one unpadded DATA frame "
-                "and satisfying the same reference model, exactly one trace. Stage H (histories): every pair (first body, second body) with first from ~5.9k (quick) damaged / cut / failing / valid bodies "
+                "and satisfying the same reference model, exactly one trace. "
+                "Part P-h2-hpack of stage P (~3.4k connections quick / ~41k thorough): two (thorough three) exchanges in a row on one connection, header blocks of a direction from one HPACK encoder, "
+                "with a dynamic-table-size schedule per direction (none, 4096, 65536, 1 MiB, 0, 0 then 65536; announced by the peer's SETTINGS_HEADER_TABLE_SIZE) taken up before the first block of the connection or before a later one, "
+                "HEADERS plain or split over CONTINUATION (the size update itself is split), END_STREAM on DATA or on continued trailers; every exchange must give exactly one trace whose body events equal those of the canonical single exchange. "
+                "Stage L (large end-stream content, ~10k cases quick): end-stream content with extreme compression ratios (zero bytes, one letter, a short pattern, a long run inside real end-stream JSON / trailers) of 2^k-1, 2^k, 2^k+1 bytes up to 1 MiB "
+                "in every encoding (absent, identity, gzip, zstd, br, deflate, snappy), compressed bit set and unset, through the real middleware on the response sides; oracle: the reference model with the generated text as the expected content "
+                "(the trace shows byte for byte what the peer compressed, whatever the ratio), transparency, and equal events under a second chunking. "
+                "Stage H (histories): every pair (first body, second body) with first from ~5.9k (quick) damaged / cut / failing / valid bodies "
                 "(compressed end-stream payloads of all five encodings cut and altered at every byte position, trailing garbage, wrong encoding; every truncation x ending x side of a valid stream) and second from 56 valid bodies "
                 "(all encodings, compressed bit set/unset, Connect and gRPC-Web, client response and server response) is traced back to back in one process state (one P, no GC in between): both bodies are judged "
                 "by the same reference model and untraced run, and the second body's events must equal those of the same body traced in the fresh process (history independence; ~331k pairs quick, ~2.2M thorough). "
@@ -57,6 +66,7 @@ CHECK = {
             # Stages M (c14_mutate_test.go) and P (c14_h2_test.go) run before H: quick 87k cases + 80k exchanges,
             # about 0.3 + 0.4 CPU-s per shard of 16 (4.6 + 6.8 CPU-s in all; thorough 13 + 31 CPU-s in all). Stage S pays
             # for most of it: in the quick tier only the mIXED spelling gets every two-piece composition (-8.5 CPU-s).
+            # Round 5: part P-h2-hpack (3.4k connections, inside stage P) and stage L (c14_history_test.go, runs after P).
             "budget_s": {"quick": 120, "thorough": 1200},
             # allocation-heavy, tiny live heap: fewer GC cycles (performance only)
             "env": {"GOGC": "800"},
